@@ -116,6 +116,27 @@ def evalpairHandle (a b : String) : String × String :=
     (s!"a={evalText pa.game} b={evalText pb.game} absa={absa}", if same then "mirror=ok" else "mirror=DIFF")
   | _, _ => bad
 
+/-- moves played on the engine model (accumulators carried), then the evaluation of the carried game and of
+    the same position set up from scratch -/
+def evalplayHandle (fen ops : String) : String × String :=
+  match readPosition fen with
+  | none => bad
+  | some p =>
+    let moves := (ops.splitOn " ").filter (· != "")
+    let rec go (g : Game) : List String → Option Game
+      | [] => some g
+      | t :: rest =>
+        match parseMove t with
+        | none => none
+        | some m => match Game.makeMove theCfg g m with
+          | none => none
+          | some g' => go g' rest
+    match go p.game moves with
+    | none => ("panic", "-")
+    | some g =>
+      let fresh := Game.fromState theCfg g.board g.player g.rights g.ep g.halfmove g.plies
+      (s!"ev={evalText g} evf={evalText fresh}", "-")
+
 def blendHandle (mg eg ph : String) : String × String :=
   match intOf? mg, intOf? eg, intOf? ph with
   | some mg, some eg, some ph =>
